@@ -60,6 +60,7 @@ type translator struct {
 	cur     fnInfo
 	named   []string // named results of the current function
 	bools   map[string]bool
+	recv    string            // receiver name of the method being translated ("" for functions): recv.f becomes the parameter recv_f
 	errVars map[string]string // err variable → "call" (bound by let-else, so `if err != nil` is dead) or "ok:<var>"
 	fail    string
 }
@@ -172,6 +173,9 @@ func (t *translator) intExpr(e ast.Expr) string {
 	case *ast.SelectorExpr:
 		if c, ok := t.consts[exprStr(v)]; ok {
 			return c
+		}
+		if id, ok := v.X.(*ast.Ident); ok && t.recv != "" && id.Name == t.recv {
+			return "recv_" + v.Sel.Name
 		}
 	case *ast.UnaryExpr:
 		if v.Op == token.SUB {
@@ -532,6 +536,17 @@ func (t *translator) block(stmts []ast.Stmt, ind string, declared map[string]boo
 				sb.WriteString(ind + "else\n")
 				sb.WriteString(t.block([]ast.Stmt{el}, ind+"  ", declared))
 			}
+		case *ast.IncDecStmt:
+			name := exprStr(v.X)
+			if _, isId := v.X.(*ast.Ident); !isId {
+				t.failf("unsupported increment target %s", name)
+				continue
+			}
+			if v.Tok == token.INC {
+				sb.WriteString(ind + name + " := " + name + " + 1\n")
+			} else {
+				sb.WriteString(ind + name + " := " + name + " - 1\n")
+			}
 		default:
 			t.failf("unsupported statement at line %d", fset.Position(s.Pos()).Line)
 		}
@@ -581,6 +596,142 @@ func (t *translator) function(fn *ast.FuncDecl, info fnInfo) string {
 	// silence "unused mutable" by a final reference is unnecessary: Lean only warns
 	return fmt.Sprintf("/-- literal translation of `%s` (%s) -/\ndef %s %s : %s := Id.run do\n%s%s\n",
 		name, filepath.Base(fset.Position(fn.Pos()).Filename), name, strings.Join(params, " "), leanRet(info), pre.String(), body)
+}
+
+// structMethod: a method on a struct of int64 fields that returns a pointer to a new struct of the same type built by a keyed
+// composite literal (ExtendedSpatialID.Higher). The receiver's fields become parameters recv_<field> in the order `fields`;
+// the result is the tuple of the literal's values in the same field order.
+func (t *translator) structMethod(fn *ast.FuncDecl, fields []string) string {
+	t.cur = fnInfo{retTuple, len(fields)}
+	t.bools = map[string]bool{}
+	t.named = nil
+	t.fail = ""
+	t.recv = ""
+	name := fn.Name.Name
+	if fn.Recv != nil && len(fn.Recv.List) == 1 && len(fn.Recv.List[0].Names) == 1 {
+		t.recv = fn.Recv.List[0].Names[0].Name
+	}
+	defer func() { t.recv = "" }()
+	var params []string
+	for _, f := range fields {
+		params = append(params, "(recv_"+f+" : Int)")
+	}
+	for _, f := range fn.Type.Params.List {
+		for _, n := range f.Names {
+			if typeStr(f.Type) != "int64" {
+				t.failf("unsupported parameter type %s", typeStr(f.Type))
+			}
+			params = append(params, "("+n.Name+" : Int)")
+		}
+	}
+	stmts := fn.Body.List
+	var ret *ast.ReturnStmt
+	if len(stmts) > 0 {
+		ret, _ = stmts[len(stmts)-1].(*ast.ReturnStmt)
+	}
+	if ret == nil || len(ret.Results) != 1 {
+		t.failf("the method does not end in a single-value return")
+		return fmt.Sprintf("/-- NOT TRANSLATED: %s -/\ndef %s_untranslatable : String := %s\n\n", t.fail, name, leanStr(t.fail))
+	}
+	body := t.block(stmts[:len(stmts)-1], "  ", map[string]bool{})
+	e := ret.Results[0]
+	if u, ok := e.(*ast.UnaryExpr); ok && u.Op == token.AND {
+		e = u.X
+	}
+	vals := map[string]string{}
+	if lit, ok := e.(*ast.CompositeLit); ok {
+		for _, el := range lit.Elts {
+			if kv, ok := el.(*ast.KeyValueExpr); ok {
+				vals[exprStr(kv.Key)] = t.intExpr(kv.Value)
+			} else {
+				t.failf("unkeyed composite literal")
+			}
+		}
+	} else {
+		t.failf("the returned value is not a composite literal")
+	}
+	var out []string
+	for _, f := range fields {
+		v, ok := vals[f]
+		if !ok {
+			t.failf("field %s is not set in the returned literal", f)
+		}
+		out = append(out, v)
+	}
+	if t.fail != "" {
+		return fmt.Sprintf("/-- NOT TRANSLATED: %s -/\ndef %s_untranslatable : String := %s\n\n", t.fail, name, leanStr(t.fail))
+	}
+	return fmt.Sprintf("/-- literal translation of the method `%s` (%s): receiver fields %s as parameters, result fields in the same order -/\ndef %s %s : %s := Id.run do\n%s  return (%s)\n\n",
+		name, filepath.Base(fset.Position(fn.Pos()).Filename), strings.Join(fields, ", "), name, strings.Join(params, " "),
+		strings.TrimSuffix(strings.Repeat("Int × ", len(fields)), " × "), body, strings.Join(out, ", "))
+}
+
+// boundsOfLoop: for a function of the shape  <int64 statements> ; for v := A; v <= B; v++ { … } ; return …
+// translate the statements before the first loop and return (A, B): the index range the loop runs over. The loop body (string
+// formatting of the indices) is not translated. Robust to renamed locals: the results are read off the loop header.
+func (t *translator) boundsOfLoop(fn *ast.FuncDecl) string {
+	t.cur = fnInfo{retTuple, 2}
+	t.bools = map[string]bool{}
+	t.named = nil
+	t.fail = ""
+	name := fn.Name.Name + "_bounds"
+	var params []string
+	for _, f := range fn.Type.Params.List {
+		for _, n := range f.Names {
+			if typeStr(f.Type) != "int64" {
+				t.failf("unsupported parameter type %s", typeStr(f.Type))
+			}
+			params = append(params, "("+n.Name+" : Int)")
+		}
+	}
+	var pre []ast.Stmt
+	var loop *ast.ForStmt
+	for _, st := range fn.Body.List {
+		if f, ok := st.(*ast.ForStmt); ok {
+			loop = f
+			break
+		}
+		if as, ok := st.(*ast.AssignStmt); ok && len(as.Rhs) == 1 {
+			if _, isLit := as.Rhs[0].(*ast.CompositeLit); isLit {
+				continue // the result slice
+			}
+			if c, isCall := as.Rhs[0].(*ast.CallExpr); isCall && exprStr(c.Fun) == "make" {
+				continue
+			}
+		}
+		if ds, ok := st.(*ast.DeclStmt); ok {
+			if gd, ok := ds.Decl.(*ast.GenDecl); ok && len(gd.Specs) == 1 {
+				if vs := gd.Specs[0].(*ast.ValueSpec); vs.Type != nil && strings.HasPrefix(typeStr(vs.Type), "[]") {
+					continue
+				}
+			}
+		}
+		pre = append(pre, st)
+	}
+	if loop == nil {
+		t.failf("no loop found")
+	}
+	body := t.block(pre, "  ", map[string]bool{})
+	lo, hi := "0", "0"
+	if loop != nil {
+		init, ok1 := loop.Init.(*ast.AssignStmt)
+		cond, ok2 := loop.Cond.(*ast.BinaryExpr)
+		post, ok3 := loop.Post.(*ast.IncDecStmt)
+		if !ok1 || !ok2 || !ok3 || len(init.Lhs) != 1 || len(init.Rhs) != 1 || cond.Op != token.LEQ || post.Tok != token.INC ||
+			exprStr(cond.X) != exprStr(init.Lhs[0]) || exprStr(post.X) != exprStr(init.Lhs[0]) {
+			t.failf("loop is not of the form `for v := A; v <= B; v++`")
+		} else {
+			lo, hi = t.intExpr(init.Rhs[0]), t.intExpr(cond.Y)
+		}
+	}
+	if t.fail != "" {
+		return fmt.Sprintf("/-- NOT TRANSLATED: %s -/\ndef %s_untranslatable : String := %s\n\n", t.fail, name, leanStr(t.fail))
+	}
+	if strings.TrimSpace(body) == "pure ()" {
+		body = ""
+	}
+	return fmt.Sprintf("/-- index range `(A, B)` of the loop `for v := A; v <= B; v++` of `%s` (%s), with the statements before it -/\ndef %s %s : Int × Int := Id.run do\n%s  return (%s, %s)\n\n",
+		fn.Name.Name, filepath.Base(fset.Position(fn.Pos()).Filename), name, strings.Join(params, " "), body, lo, hi)
 }
 
 // constant table: every package-level integer constant whose value is an integer literal or a shift/arithmetic of others
@@ -693,6 +844,32 @@ func genFns(pkgs []*pkgInfo, out string) {
 		t.helpers(fn, tg.pkg, decls, &sb, 0)
 		t.fns[tg.name] = info
 		sb.WriteString(t.function(fn, info))
+	}
+	for _, tg := range []target{{"integrate", "VerticalZoom"}} {
+		if fn, ok := decls[tg.pkg+"."+tg.name]; ok {
+			t.helpers(fn, tg.pkg, decls, &sb, 0)
+			sb.WriteString(t.boundsOfLoop(fn))
+		} else {
+			sb.WriteString(fmt.Sprintf("def %s_bounds_untranslatable : String := \"function no longer exists\"\n\n", tg.name))
+		}
+	}
+	// ExtendedSpatialID.Higher (the parent voxel used by merge): fields in the order of the model's Ext (h, x, y, v, f)
+	found := false
+	for _, p := range pkgs {
+		if filepath.Base(p.name) != "object" {
+			continue
+		}
+		for _, f := range p.files {
+			for _, d := range f.Decls {
+				if fn, ok := d.(*ast.FuncDecl); ok && fn.Recv != nil && fn.Name.Name == "Higher" && strings.Contains(recvName(fn), "ExtendedSpatialID") {
+					sb.WriteString(t.structMethod(fn, []string{"hZoom", "x", "y", "vZoom", "z"}))
+					found = true
+				}
+			}
+		}
+	}
+	if !found {
+		sb.WriteString("def Higher_untranslatable : String := \"method no longer exists\"\n\n")
 	}
 	sb.WriteString("end SpatialId.Gen\n")
 	os.WriteFile(filepath.Join(out, "Int64Fns.lean"), []byte(sb.String()), 0o644)
